@@ -42,12 +42,44 @@ def _s6_polars_stacking(program, res):
                         f"column y (control table v: x, y) is transformed by Pandas and refused by Polars (SchemaError: type Float64 is incompatible with expected type Int64)", c)
 
 
+def _s7_block_alignment(program, res):
+    """blocks -> rows pastes one frame per key level side by side, row i next to row i.  Equal row counts do not make row i the same record
+    in every block: the record keys of each block have to be compared with the first block's before the paste (or the paste be a keyed join)"""
+    from .. import cfg as cfgmod
+    for (mod, cls) in (("pandas_base", "PandasModelBase"), ("polars_model", "PolarsModel")):
+        m = program.method(mod, cls, "blocks_to_rowrecs", inherited=False)
+        res.analysed(m)
+        spec = [p for p in m.params() if p not in ("self", "data")][0]
+        g = cfgmod.build(m.node)
+        pastes = [n for n in g.stmt_nodes(("stmt",)) if any(isinstance(c, ast.Call) and (dotted_name(c.func) or "").endswith("concat")
+                                                            and any((kw.arg == "axis" and unparse(kw.value) == "1") or (kw.arg == "how" and "horizontal" in unparse(kw.value))
+                                                                    for kw in c.keywords) for c in ast.walk(n.stmt))]
+        if not pastes:
+            raise AnalysisError(f"{cls}.blocks_to_rowrecs: the column-wise paste of the blocks was not found")
+        checks = []
+        for t in g.stmt_nodes(("test",)):
+            txt = unparse(t.cond)
+            if f"{spec}.record_keys" in txt and any(w in txt for w in (".equals(", ".rows()", "frame_equal", "==", "!=")) \
+                    and (isinstance(t.stmt, ast.Assert) or any(g.nodes[x].kind == "raise" for (s_, lab) in t.succ for x in (g.reachable_from(s_, avoid={t.id}) | {s_}))):
+                checks.append(t)
+        ok = bool(checks) and all(any(g.dominates(c.id, p_.id) or p_.id in g.reachable_from(c.id) for c in checks) for p_ in pastes)
+        if ok:
+            res.ok("C17-S7", f"{cls}.blocks_to_rowrecs compares every block's record keys with the first block's before pasting the blocks side by side")
+        else:
+            res.fail_at("C17-S7", m, "blocks-pasted-by-position",
+                        f"{cls}.blocks_to_rowrecs sorts each block by the record keys and pastes them side by side after checking only the row *counts*: with ids {{1,2}} "
+                        f"under key a and {{1,3}} under key b, record 2 silently receives record 3's b value and record 3 vanishes (SQL returns NULLs in the right places)",
+                        pastes[0].stmt)
+
+
 def run(program, res, tier):
     res.rule("C17-S1", "inverse swaps blocks_in and blocks_out under the strictness assertion")
     res.rule("C17-S2", "transform applies blocks_in first, then blocks_out, chaining the result (Python and SQL)")
     res.rule("C17-S3", "compose applies `other` first, then `self`")
     res.rule("C17-S4", "both data models implement the two conversions with the abstract signature")
     res.rule("C17-S5", "Pandas conversions relabel columns by position only after ordering them by the record specification")
+    res.rule("C17-S7", "blocks are pasted by position only after their record keys were checked equal")
+    _s7_block_alignment(program, res)
     res.rule("C17-S6", "Polars stacks value columns of different dtypes the way Pandas does")
     _s6_polars_stacking(program, res)
     rm = program.cls("cdata", "RecordMap")
